@@ -330,11 +330,17 @@ class Minimiser:
                     self.ddmin_list(lambda c=cont, k=key: c[k], lambda v, c=cont, k=key: c.__setitem__(k, v))
             # scalar shrinking
             for op in ops:
-                for key, tries in (("len", None), ("pat", [0]), ("al", [16]), ("oal", [16]), ("force", [0]), ("twin", [0]), ("confirm", [0])):
+                for key, tries in (("len", None), ("pat", [0]), ("al", [16]), ("oal", [16]), ("force", [0]), ("twin", [0]), ("confirm", [0]),
+                                   ("k", None), ("m", None)):
                     if key not in op:
                         continue
+                    if key in ("k", "m") and op.get("op") != "CREATE":
+                        continue
                     old = op[key]
-                    cands = tries if tries is not None else [c for c in (0, 1, 16, 64, old // 2) if c < old]
+                    if key in ("k", "m"):
+                        cands = [c for c in (1, 2, 3, 4, 6, old // 2) if 0 < c < old]   # smaller shapes (device numbers are taken modulo k+m)
+                    else:
+                        cands = tries if tries is not None else [c for c in (0, 1, 16, 64, old // 2) if c < old]
                     for c in cands:
                         if c == old:
                             continue
